@@ -177,6 +177,9 @@ func Run(sink ribdrv.Sink, c Cfg) (hangs int, err error) {
 		abortOnce.Do(func() { close(abort) })
 	}
 	acked := make([][]abs.Op, c.Sessions) // per session: operations acknowledged RIB_PROGRAMMED, in order
+	// the batch a session sent while its transport was failing: the server may have programmed any prefix of it without
+	// being able to say so (an acknowledgement cannot be delivered on a dead stream)
+	maybe := make([][]abs.Op, c.Sessions)
 	announced := make([][][2]int, c.Sessions)
 	start := make(chan struct{})
 	bar := newBarrier(c.Sessions)
@@ -298,6 +301,7 @@ func Run(sink ribdrv.Sink, c Cfg) (hangs int, err error) {
 					// the transport of this session dies while the server works through this batch: its RPC must end,
 					// the others must not notice
 					ms.FailSends(errors.New("transport is closing"))
+					maybe[i] = ops
 					if !send(req, "operations") {
 						return
 					}
@@ -504,6 +508,11 @@ func Run(sink ribdrv.Sink, c Cfg) (hangs int, err error) {
 		ack = append(ack, a...)
 	}
 	end["acked"] = ack
+	mb := []abs.Op{}
+	for _, a := range maybe {
+		mb = append(mb, a...)
+	}
+	end["maybe"] = mb
 	if perr != nil {
 		end["st"] = map[string]any{"error": perr.Error()}
 	} else {
